@@ -4,8 +4,10 @@
            reference type, unbounded getSubRefs recursion, Endpoints()[0]); Model.Server.serve adds the synchronous write
            of the response by the dispatcher.  Hand transcription of the fixed code, tied by the C29 correspondence
            (hostile request histories) and by the fuzzing client + canary against a server in a child process.
-   REFUTED as stated (a client that stops reading blocks the dispatcher for everyone: known finding); the partial
-   theorem excludes exactly the non-reading peers. Latency itself is observed, not proved. *)
+   Before the fix a client that stopped reading blocked the dispatcher for everyone, for ever (C29_refuted_before_fix_...);
+   since the fix response writes have a deadline D and the statement is proved with the bound: every request is dealt with
+   after at most (handler times of the requests before it and its own) + D * (number of clients that have stopped
+   reading).  Handler computation time itself (htime) is a parameter: it is observed (canary), not proved. *)
 From Coq Require Import NArith ZArith Bool List Lia.
 From Opcua Require Import Model.ServerSpace Model.ServerBrowse Model.Server Proofs.ServerBrowseProofs Proofs.ServerProofs
   Gen.ServerGen.
@@ -22,10 +24,10 @@ Proof.
 Qed.
 
 (* the full statement: whatever the clients do (including not reading), every request is handled and answered *)
-Definition C29_statement : Prop :=
+Definition C29_statement_before_fix : Prop :=
   forall fuel (reading : N -> bool) s e, space_ok fuel (sv_space s) -> ~ bad (snd (serve fuel reading s e)).
 
-Theorem C29_refuted_nonreading_client : ~ C29_statement.
+Theorem C29_refuted_before_fix_nonreading_client : ~ C29_statement_before_fix.
 Proof.
   intros C. apply (C 1%nat (fun _ => false) (init (Space 1 []) 1) (EReq 0 0 (RSvc SvcGetEndpoints true))).
   - apply (empty_space_ok 0 1).
@@ -50,6 +52,65 @@ Proof.
     rewrite (Hr chan tok r eq_refl). destruct o; reflexivity. }
   rewrite D. intros [[w C]|[C|C]]; [eapply P1; exact C | exact (P2 C) | exact (NH C)].
 Qed.
+
+(* ---- since the fix (write deadline D, Model.Server.serve_t) ----
+   THE STATEMENT: whatever the clients do - any history, any set of clients that have stopped reading - no request makes
+   the server panic, exhaust its stack or hang, and every request (so every request of a client that does read) has been
+   dealt with by time  start + (handler times up to and including it) + D * (number of stalled clients). *)
+Definition C29_statement : Prop :=
+  forall fuel D htime h t now, space_ok fuel (sv_space (ts_srv t)) ->
+    Forall (fun ot => ~ bad (fst ot) /\ snd ot <= now + htime_sum htime h + D * N.of_nat (length (ts_stalled t)))
+           (run_t fuel D htime t now h).
+
+Lemma serve_t_outcome : forall fuel D htime t e t' o dt, serve_t fuel D htime t e = (t', o, dt) ->
+  space_ok fuel (sv_space (ts_srv t)) -> ~ bad o /\ space_ok fuel (sv_space (ts_srv t')).
+Proof.
+  intros fuel D htime t e t' o dt H OK. unfold serve_t in H. destruct (handle fuel (ts_srv t) e) as [s' o0] eqn:E.
+  cbv zeta in H. inversion H; subst; clear H. cbn [ts_srv].
+  destruct (handle_no_panic _ _ _ _ _ E OK) as (P1 & P2 & OK'). destruct (handle_never_hangs _ _ _ _ _ E) as [NH _].
+  split; [|exact OK'].
+  match goal with |- ~ bad (if ?c then _ else _) => destruct c end.
+  - intros [[w C]|[C|C]]; discriminate.
+  - intros [[w C]|[C|C]]; [eapply P1; exact C | exact (P2 C) | exact (NH C)].
+Qed.
+
+Theorem C29_bounded_and_safe : C29_statement.
+Proof.
+  intros fuel D htime h. induction h as [|e r IH]; intros t now OK; cbn [run_t]; [constructor|].
+  pose proof (run_t_bound fuel D htime (e :: r) t now) as B. cbn [run_t] in B.
+  destruct (serve_t fuel D htime t e) as [[t' o] dt] eqn:E.
+  destruct (serve_t_outcome _ _ _ _ _ _ _ _ E OK) as [NB OK'].
+  pose proof (serve_t_time _ _ _ _ _ _ _ _ E) as T.
+  inversion B as [|x l Hx Hl]; subst. constructor.
+  - split; [exact NB | exact Hx].
+  - eapply Forall_impl; [|apply (IH t' (now + dt) OK')]. intros [o' tm] [H1 H2]. split; [exact H1|].
+    cbn [snd fst] in *. cbn [htime_sum fold_right]. fold (htime_sum htime r). lia.
+Qed.
+
+(* a client that reads is answered with what its handler produced: the deadline outcome is only ever given to a
+   client whose own channel is stalled or already closed *)
+Theorem C29_reading_client_answered : forall fuel D htime t chan tok r t' o dt,
+  serve_t fuel D htime t (EReq chan tok r) = (t', o, dt) ->
+  mem chan (ts_stalled t) = false -> mem chan (ts_closed t) = false ->
+  o = snd (handle fuel (ts_srv t) (EReq chan tok r)) /\ o <> OWriteTimeout.
+Proof.
+  intros fuel D htime t chan tok r t' o dt H S C. unfold serve_t in H.
+  destruct (handle fuel (ts_srv t) (EReq chan tok r)) as [s' o0] eqn:E. cbv beta iota zeta in H. inversion H; subst; clear H.
+  assert (Hhit : forall tch, mem chan (filter (fun c => mem c tch) (ts_stalled t)) = false).
+  intros tch.
+  { unfold mem in *. apply not_true_is_false. intros X. apply existsb_exists in X. destruct X as (x & Hin & Hx).
+    apply N.eqb_eq in Hx. subst x. apply filter_In in Hin. destruct Hin as [Hin _].
+    assert (existsb (N.eqb chan) (ts_stalled t) = true) by (apply existsb_exists; exists chan; split; [exact Hin | apply N.eqb_refl]).
+    congruence. }
+  rewrite Hhit, C. cbn [orb andb snd]. split; [reflexivity|]. exact (proj2 (handle_never_hangs _ _ _ _ _ E)).
+Qed.
+
+(* a stalled client costs its deadline once: afterwards its connection is closed *)
+Example C29_ex_stalled_once :
+  let t0 := TS (init (Space 1 []) 1) [7] [] in
+  let h := [EReq 7 0 (RSvc SvcGetEndpoints true); EReq 7 0 (RSvc SvcGetEndpoints true); EReq 1 0 (RSvc SvcGetEndpoints true)] in
+  run_t 1 5000 (fun _ => 1) t0 0 h = [(OWriteTimeout, 5001); (OWriteTimeout, 5002); (OOther, 5003)].
+Proof. vm_compute. reflexivity. Qed.
 
 (* histories: from a well-formed space, no handler outcome along ANY history is a panic or a stack exhaustion, and the
    space stays well-formed (no request changes references) *)
@@ -81,8 +142,10 @@ Example C29_ex_hostile : (* NaN interval, unknown ids, no session: answered, not
                      ODeleteItems [StBadMonitoredItemIDInvalid]; OSetMode [StBadMonitoredItemIDInvalid]; OFindServers 0].
 Proof. vm_compute. reflexivity. Qed.
 
-Print Assumptions C29_refuted_nonreading_client.
+Print Assumptions C29_refuted_before_fix_nonreading_client.
 Print Assumptions C29_partial_readers.
+Print Assumptions C29_bounded_and_safe.
+Print Assumptions C29_reading_client_answered.
 Print Assumptions C29_no_handler_panics.
 Print Assumptions C29_subscription_worker_starts.
 Print Assumptions C29_constants.
